@@ -149,8 +149,10 @@ package memmetrics
 //@ func (*RollingCounter).Reset
 //@   props C17
 //@   requires c != nil
-//@   modifies elems(c.values), c.lastBucket, c.countedBuckets, c.lastUpdated
+//@   modifies elems(c.values), c.lastBucket, c.countedBuckets, c.lastUpdated, c.gsum, c.tclean
+//@   ghost_ensures (forall s int :: c.gsum[s] == 0) && c.tclean == lastclock
 //@   ensures emptied: c.lastUpdated == zerotime && c.countedBuckets == 0 && (forall j int :: 0 <= j && j < len(c.values) ==> c.values[j] == 0)
+//@   ensures representation_kept: old(cfgOK(c)) && zerotime <= lastclock ==> cfgOK(c) && RC(c)
 //@   loop 1 invariant -1 <= rangeindex && rangeindex < len(c.values) && len(c.values) == old(len(c.values)) && (forall j int :: 0 <= j && j <= rangeindex ==> c.values[j] == 0)
 
 // ---- round-trip metrics (C18): which counters a response moves, and the ratios read from them --------------
@@ -159,13 +161,15 @@ package memmetrics
 //@ pred metricsOK(m *RTMetrics) = m != nil && counterOK(m.total) && counterOK(m.netErrors) && m.total != m.netErrors && backing(m.total.values) != backing(m.netErrors.values)
 
 //@ type RTMetrics
-//@   immutable total netErrors newCounter newHist statusCodesLock histogramLock
+//@   immutable total netErrors newCounter newHist statusCodesLock histogramLock histogram
 //@   guarded_by statusCodesLock: statusCodes
 //@   insert_only statusCodes
 //@   protects statusCodesLock: total netErrors
-//@   guarded_by histogramLock: histogram
+//@   protects histogramLock: histogram
 //@   guards statusCodesLock: RollingCounter.lastUpdated RollingCounter.countedBuckets RollingCounter.lastBucket RollingCounter.values RollingCounter.gsum RollingCounter.tclean elems(int)
 //@   lockinv statusCodesLock (m): counters_ok: metricsOK(m)
+//@   guards histogramLock: RollingHDRHistogram.idx RollingHDRHistogram.lastRoll hdrhistogram.Histogram.cnt
+//@   lockinv histogramLock (m): histogram_ok: rollingOK(m.histogram)
 
 //@ type RollingHDRHistogram
 //@   extsync
@@ -174,12 +178,146 @@ package memmetrics
 //@ type HDRHistogram
 //@   extsync
 //@   mutators RecordLatencies Reset RecordValues Merge
+//@   immutable h low high sigfigs
 
+// ---- the latency histogram (C18): assumed contracts on github.com/HdrHistogram/hdrhistogram-go ------------------------------
+// The library's histogram is opaque; the ghost field cnt stands for the number of values it holds (its TotalCount).
+//@ type github.com/HdrHistogram/hdrhistogram-go.Histogram
+//@   ghost cnt int
+//@ extern github.com/HdrHistogram/hdrhistogram-go.New
+//@   params lo hi sig
+//@   modifies nothing
+//@   maypanic
+//@   ensures empty: result != nil && fresh(result) && result.cnt == 0
+//@ extern (*github.com/HdrHistogram/hdrhistogram-go.Histogram).Reset
+//@   params self
+//@   modifies self.cnt
+//@   nopanic
+//@   ensures emptied: self.cnt == 0
+//@ extern (*github.com/HdrHistogram/hdrhistogram-go.Histogram).RecordValues
+//@   params self v n
+//@   modifies self.cnt
+//@   nopanic
+//@   ensures recorded_or_refused: self.cnt == old(self.cnt) + ite(result == nil, n, 0)
+//@ extern (*github.com/HdrHistogram/hdrhistogram-go.Histogram).Merge
+//@   params self from
+//@   modifies self.cnt
+//@   ensures merged_minus_dropped: self.cnt == old(self.cnt) + old(from.cnt) - result && result >= 0
+//@ extern (*github.com/HdrHistogram/hdrhistogram-go.Histogram).ValueAtQuantile
+//@   params self q
+//@   modifies nothing
+
+//@ extern (*github.com/HdrHistogram/hdrhistogram-go.Histogram).Export
+//@   params self
+//@   modifies nothing
+//@   nopanic
+//@ extern github.com/HdrHistogram/hdrhistogram-go.Import
+//@   params snap
+//@   modifies nothing
+//@   ensures copy: result != nil && fresh(result)
+
+//@ pred histOK(h *HDRHistogram) = h != nil && h.h != nil
+//@ pred rollingOK(r *RollingHDRHistogram) = r != nil && len(r.buckets) >= 1 && 0 <= r.idx && r.idx < len(r.buckets) && (forall i int :: 0 <= i && i < len(r.buckets) ==> histOK(r.buckets[i]))
+
+//@ func NewHDRHistogram
+//@   props C18
+//@   modifies nothing
+//@   nopanic
+//@   ensures empty_or_error: err == nil ==> histOK(h) && fresh(h) && fresh(h.h) && h.h.cnt == 0 && h.low == low && h.high == high && h.sigfigs == sigfigs
+//@   ensures error_has_no_histogram: err != nil ==> h == nil
+
+//@ func (*HDRHistogram).Reset
+//@   props C18
+//@   requires histOK(h)
+//@   modifies h.h.cnt
+//@   ensures emptied: h.h.cnt == 0
+
+//@ func (*HDRHistogram).RecordValues
+//@   props C18
+//@   requires histOK(h)
+//@   modifies h.h.cnt
+//@   ensures recorded_or_refused: h.h.cnt == old(h.h.cnt) + ite(result == nil, n, 0)
+
+// latencies are kept in microseconds
+//@ func (*HDRHistogram).RecordLatencies
+//@   props C18
+//@   requires histOK(h)
+//@   modifies h.h.cnt
+//@   ensures microseconds: calls(RecordValues) == 1 && callarg(RecordValues, 0, 0) == h && (d >= 0 ==> callarg(RecordValues, 0, 1) == d / 1000) && callarg(RecordValues, 0, 2) == n && result == callres(RecordValues, 0, 0)
+//@   ensures recorded_or_refused: h.h.cnt == old(h.h.cnt) + ite(result == nil, n, 0)
+
+//@ func (*HDRHistogram).Merge
+//@   props C18
+//@   requires histOK(h) && (other != nil ==> other.h != nil)
+//@   modifies h.h.cnt
+//@   ensures nil_is_refused: other == nil ==> result != nil && h.h.cnt == old(h.h.cnt)
+//@   ensures merged: other != nil ==> result == nil && h.h.cnt <= old(h.h.cnt) + old(other.h.cnt)
+
+//@ func (*RollingHDRHistogram).Reset
+//@   props C18
+//@   requires rollingOK(r)
+//@   modifies r.idx, r.lastRoll, hdrhistogram.Histogram.cnt
+//@   ensures every_bucket_emptied: r.idx == 0 && (forall i int :: 0 <= i && i < len(r.buckets) ==> r.buckets[i].h.cnt == 0)
+//@   ensures still_ok: rollingOK(r)
+//@   loop 1 invariant -1 <= rangeindex && rangeindex < len(r.buckets) && r.idx == 0 && rollingOK(r) && (forall i int :: 0 <= i && i <= rangeindex ==> r.buckets[i].h.cnt == 0)
+
+// the bucket that becomes current is emptied first: a rolled-over bucket holds nothing from the previous lap
+//@ func (*RollingHDRHistogram).rotate
+//@   props C18
+//@   requires rollingOK(r)
+//@   modifies r.idx, hdrhistogram.Histogram.cnt
+//@   ensures next_bucket_emptied: r.idx == (old(r.idx) + 1) % len(r.buckets) && r.buckets[r.idx].h.cnt == 0
+//@   ensures others_keep_their_values: forall i int :: 0 <= i && i < len(r.buckets) && r.buckets[i].h != r.buckets[r.idx].h ==> r.buckets[i].h.cnt == old(r.buckets[i].h.cnt)
+//@   ensures still_ok: rollingOK(r)
+
+//@ func (*RollingHDRHistogram).getHist
+//@   props C18
+//@   assume clock_stable
+//@   requires rollingOK(r)
+//@   modifies r.idx, r.lastRoll, hdrhistogram.Histogram.cnt
+//@   ensures current_bucket: result == r.buckets[r.idx] && histOK(result) && rollingOK(r)
+//@   ensures rolls_after_a_full_period: (lastclock - old(r.lastRoll) >= r.period) <==> calls(rotate) == 1
+//@   ensures no_roll_no_change: lastclock - old(r.lastRoll) < r.period ==> r.idx == old(r.idx) && r.lastRoll == old(r.lastRoll) && calls(rotate) == 0
+//@   ensures roll_restarts_the_period: lastclock - old(r.lastRoll) >= r.period ==> r.lastRoll == lastclock
+
+//@ func (*RollingHDRHistogram).RecordLatencies
+//@   props C18
+//@   assume clock_stable
+//@   requires rollingOK(r)
+//@   modifies r.idx, r.lastRoll, hdrhistogram.Histogram.cnt
+//@   ensures into_the_current_bucket: calls(getHist) == 1 && calls(RecordLatencies) == 1 && callarg(RecordLatencies, 0, 0) == callres(getHist, 0, 0) && callarg(RecordLatencies, 0, 1) == v && callarg(RecordLatencies, 0, 2) == n && result == callres(RecordLatencies, 0, 0)
+//@   ensures still_ok: rollingOK(r)
+
+//@ func (*HDRHistogram).Export
+//@   props C09 C18
+//@   requires h != nil
+//@   modifies nothing
+//@   ensures private_copy: result != nil && fresh(result) && (h.h != nil ==> result.h != nil && fresh(result.h))
+
+//@ func (*RollingHDRHistogram).Export
+//@   props C09 C18
+//@   requires r != nil && (forall i int :: 0 <= i && i < len(r.buckets) ==> r.buckets[i] != nil)
+//@   modifies nothing
+//@   ensures private_copy: result != nil && fresh(result) && len(result.buckets) == len(r.buckets) && result.idx == r.idx
+//@   loop 1 invariant -1 <= rangeindex && rangeindex < len(r.buckets) && export != nil && fresh(export) && export.idx == r.idx && len(exportBuckets) == len(r.buckets) && fresh(backing(exportBuckets))
+
+// the merged view covers every bucket of the window
+//@ func (*RollingHDRHistogram).Merged
+//@   props C18
+//@   requires rollingOK(r)
+//@   modifies nothing
+//@   ensures histogram_or_error: result1 == nil ==> histOK(result0) && fresh(result0)
+//@   loop 1 invariant -1 <= rangeindex && rangeindex < len(r.buckets) && histOK(m) && fresh(m) && fresh(m.h) && rollingOK(r) && (forall o *hdrhistogram.Histogram :: o != m.h ==> o.cnt == old(o.cnt))
+
+// C18 "tripping clears the metrics": both counters, every per-status counter and every histogram bucket are emptied
 //@ func (*RTMetrics).Reset
 //@   props C18
-//@   trusted
+//@   atomic m.statusCodesLock
 //@   requires m != nil
-//@   modifies external
+//@   modifies m.statusCodes, elems(m.total.values), m.total.lastBucket, m.total.countedBuckets, m.total.lastUpdated, elems(m.netErrors.values), m.netErrors.lastBucket, m.netErrors.countedBuckets, m.netErrors.lastUpdated, m.total.gsum, m.total.tclean, m.netErrors.gsum, m.netErrors.tclean, RollingHDRHistogram.idx, RollingHDRHistogram.lastRoll, hdrhistogram.Histogram.cnt
+//@   ensures counters_emptied: m.total.lastUpdated == zerotime && m.total.countedBuckets == 0 && (forall j int :: 0 <= j && j < len(m.total.values) ==> m.total.values[j] == 0) && m.netErrors.lastUpdated == zerotime && m.netErrors.countedBuckets == 0 && (forall j int :: 0 <= j && j < len(m.netErrors.values) ==> m.netErrors.values[j] == 0)
+//@   ensures no_status_code_left: m.statusCodes != nil && fresh(m.statusCodes) && len(m.statusCodes) == 0 && (forall k int :: !in(k, m.statusCodes))
+//@   ensures histogram_emptied: m.histogram.idx == 0 && (forall i int :: 0 <= i && i < len(m.histogram.buckets) ==> m.histogram.buckets[i].h.cnt == 0)
 
 //@ func (*RTMetrics).recordStatusCode
 //@   props C18
@@ -188,8 +326,11 @@ package memmetrics
 
 //@ func (*RTMetrics).recordLatency
 //@   props C18
-//@   trusted
-//@   modifies external
+//@   atomic m.histogramLock
+//@   assume clock_stable
+//@   requires m != nil
+//@   modifies RollingHDRHistogram.idx, RollingHDRHistogram.lastRoll, hdrhistogram.Histogram.cnt
+//@   ensures one_sample_into_the_histogram: calls(RecordLatencies) == 1 && callarg(RecordLatencies, 0, 0) == m.histogram && callarg(RecordLatencies, 0, 1) == d && callarg(RecordLatencies, 0, 2) == 1 && result == callres(RecordLatencies, 0, 0)
 
 //@ func (*RTMetrics).Record
 //@   props C18
@@ -212,10 +353,11 @@ package memmetrics
 
 //@ func (*RTMetrics).LatencyHistogram
 //@   props C18
-//@   trusted
+//@   atomic m.histogramLock
 //@   requires m != nil
-//@   modifies external
-//@   ensures histogram_or_error: result1 == nil ==> result0 != nil
+//@   modifies nothing
+//@   ensures histogram_or_error: result1 == nil ==> histOK(result0) && fresh(result0)
+//@   ensures merged_view_of_the_window: calls(Merged) == 1 && callarg(Merged, 0, 0) == m.histogram && result0 == callres(Merged, 0, 0) && result1 == callres(Merged, 0, 1)
 
 //@ func (*RTMetrics).ResponseCodeRatio
 //@   props C18
